@@ -328,8 +328,17 @@ def ws_rename_check(ctx, srv, conn, root):
         ctx.report("C04:workspace-symbol-after-edit", "workspace/symbol does not list exactly the units and members of the current text after a unit was renamed and one removed",
                    {"kind": "counterexample", "input": {"text": old_text, "changed_to": new_text, "query": "ws_ren_"}, "implementation": {"before": before, "after": after},
                     "oracle": {"before": want_before, "after": want_after}})
-    impl.did_close(srv, path)
+    # the file is deleted and the document closed: the same query, and a longer one, must not list its units any more
     os.remove(path)
+    impl.did_close(srv, path)
+    gone = names()
+    r, _ = impl.request(srv, conn, "workspace/symbol", {"query": "ws_ren_i"})
+    gone2 = [x["name"] for x in (r[2] or [])] if r and r[0] == "r" else None
+    ctx.count(("ws-deleted",), True)
+    if gone != [] or gone2 != []:
+        ctx.report("C04:workspace-symbol-after-delete", "workspace/symbol still lists the units of a file that was deleted and closed",
+                   {"kind": "counterexample", "input": {"text": new_text, "query": ["ws_ren_", "ws_ren_i"], "history": "didOpen, query, didChange, query, delete file, didClose, query"},
+                    "implementation": {"same_query": gone, "longer_query": gone2}, "oracle": []})
 
 
 def ws_check(ctx, srv, conn, coq, model):
